@@ -650,8 +650,9 @@ R.spec(F, "JournalStorageReplayResult._apply_create_trial", props=["C06", "C01",
                "implies(mine(self, log) and j_trial(self, %s).state != TrialState.RUNNING, own_map_unchanged(self))" % NEW_T,
            ])],
        ensures_all=JINV,
-       modifies=["D:*@jtr", "D:*@jts", "L:*@jtl", "F:FrozenTrial.*", "D:*@t*", "L:*:list<float>", "L:*:list<val>", "G:is_tuple",
-                 "D:*:dict<str,val>"] + PRIV_MOD)
+       # records (plain dict<str,val> / list<val>) are NOT in the frame: the automatic frame obligations prove that
+       # only objects allocated by the handler itself are written in those heaps
+       modifies=["D:*@jtr", "D:*@jts", "L:*@jtl", "F:FrozenTrial.*", "D:*@t*", "L:*:list<float>", "G:is_tuple"] + PRIV_MOD)
 
 
 @R.specfunc()
@@ -730,7 +731,10 @@ def _first_with_param(eng, st, s, log, want_incompatible):
         return eng.dict_has(st, m.tf(m.trial(m.tid_at(sid, x)), "_params"), name)
     d_old = eng.dict_get(st, m.tf(m.trial(m.tid_at(sid, i)), "_distributions"), name)
     d_new = uf("json_to_distribution", val_sort(), z3.IntSort())(_rec(eng, st, log, "distribution"))
-    compat = uf("dist_compatible", z3.IntSort(), z3.IntSort(), z3.BoolSort())(d_old.term, d_new)
+    has_old = eng.dict_has(st, m.tf(m.trial(m.tid_at(sid, i)), "_distributions"), name)
+    # a missing distribution entry (W4 broken) raises KeyError inside the same try block: handled like an
+    # incompatibility (re-raised at the issuer, silently rejected elsewhere)
+    compat = z3.And(has_old, uf("dist_compatible", z3.IntSort(), z3.IntSort(), z3.BoolSort())(d_old.term, d_new))
     first = z3.And(0 <= i, i < n, has_param(i), qforall([j], z3.Implies(z3.And(0 <= j, j < i), z3.Not(has_param(j)))))
     return z3.Exists([i], z3.And(first, z3.Not(compat) if want_incompatible else compat))
 
@@ -776,9 +780,55 @@ trial_setter("_apply_set_trial_param", ["_params", "_distributions"], [
     "dict_same_except(j_trial(self, %s)._params, old(j_trial(self, %s)._params), %s)" % (TID, TID, PNAME),
     "dict_same_except(j_trial(self, %s)._distributions, old(j_trial(self, %s)._distributions), %s)" % (TID, TID, PNAME),
 ], extra_requires=["rec_has(log, 'param_name') and is_str(rec(log, 'param_name'))", "rec_has(log, 'param_value_internal')",
-                   "rec_has(log, 'distribution')", "J5(self)"],
-   extra_cases=rejected("incompatible", "param_incompatible(self, log)", "ValueError"))
+                   "rec_has(log, 'distribution')"],
+   extra_cases=rejected("incompatible", "param_incompatible(self, log)", "Exception"))
 _c = R.contracts[(F, "JournalStorageReplayResult._apply_set_trial_param")]
 _c.setup = lambda cx: cx.st.assume(_parsed_wf(cx.eng, cx.st), quantified=True)
 _c.locals = {"prev_trial_id": "int"}
 _c.loops = {0: loop(index="_i", invariant=["0 <= _i", "prefix_without_param(self, log, _i)"], modifies=[])}
+
+
+# ---------------------------------------------------------------------------------------------------
+# apply_logs: the cursor is advanced BEFORE each record is applied; an exception leaves it on the next unread
+# record and is raised only for a record of this worker; J is preserved across the whole batch.
+HANDLER_REQ = {}
+for _op, _q in ((0, "_apply_create_study"), (1, "_apply_delete_study"), (2, "_apply_set_study_user_attr"),
+                (3, "_apply_set_study_system_attr"), (4, "_apply_create_trial"), (5, "_apply_set_trial_param"),
+                (6, "_apply_set_trial_state_values"), (7, "_apply_set_trial_intermediate_value"),
+                (8, "_apply_set_trial_user_attr"), (9, "_apply_set_trial_system_attr")):
+    HANDLER_REQ[_op] = [r for r in R.contracts[(F, "JournalStorageReplayResult." + _q)].requires if r not in JINV and "self" not in r]
+
+
+@R.specfunc()
+def wf_record(eng, st, log):
+    """The record satisfies the schema preconditions of the handler of its op code."""
+    from pyvc.interp import SpecCtx
+    op = eng.dict_get(st, log, SV(KStr, z3.StringVal("op_code"))).term
+    conj = [eng.dict_has(st, log, SV(KStr, z3.StringVal("op_code"))), V().is_vint(op), V().i(op) >= 0, V().i(op) <= 9, log.term > 0]
+    ctx = eng.spec_stack[-1]
+    for k, reqs in HANDLER_REQ.items():
+        cs = [eng.spec_eval(st, r, ctx, {"log": log}, None, None) for r in reqs]
+        conj.append(z3.Implies(V().i(op) == k, z3.And(cs) if cs else z3.BoolVal(True)))
+    return SV(KBool, z3.And(conj))
+
+
+R.spec(F, "JournalStorageReplayResult.apply_logs", props=["C06", "C01"],
+       types={"logs": "list[dict[str, Any]]"},
+       requires=JINV + ["forall(lambda i: implies(0 <= i and i < len(logs), wf_record(logs[i])), trigger=logs[i])"],
+       cases=[case("batch", any_outcome=True,
+                   ensures=["old(self.log_number_read) <= self.log_number_read",
+                            "self.log_number_read <= old(self.log_number_read) + len(logs)"],
+                   ensures_return=["self.log_number_read == old(self.log_number_read) + len(logs)"])],
+       ensures_all=JINV,
+       loops={0: loop(index="_i", invariant=JINV + ["0 <= _i", "_i <= len(logs)", "self.log_number_read == old(self.log_number_read) + _i"],
+                      modifies=SHARED_MOD + PRIV_MOD + ["F:JournalStorageReplayResult.log_number_read", "F:FrozenTrial.*", "F:FrozenStudy.*",
+                                                        "D:*@t*", "D:*@fs*", "L:*:list<float>",
+                                                        "L:*:list<enum:StudyDirection>", "G:is_tuple"])},
+       modifies=SHARED_MOD + PRIV_MOD + ["F:JournalStorageReplayResult.log_number_read", "F:FrozenTrial.*", "F:FrozenStudy.*",
+                                         "D:*@t*", "D:*@fs*", "L:*:list<float>",
+                                         "L:*:list<enum:StudyDirection>", "G:is_tuple"])
+
+
+for _k, _c in list(R.contracts.items()):
+    if _k[1].startswith("JournalStorageReplayResult._apply_"):
+        _c.no_self_inline = True       # apply_logs is checked against the handlers' contracts, not their bodies
